@@ -18,7 +18,14 @@ import (
 func init() { register("C19", "exploration", runC19) }
 
 func runCreate(r *vf.Run, big bool, out, in string) childResult {
+	return runCreateOpts(r, big, false, out, in)
+}
+
+func runCreateOpts(r *vf.Run, big, verbose bool, out, in string) childResult {
 	args := []string{"create", "-o", out}
+	if verbose {
+		args = append([]string{"-v"}, args...)
+	}
 	if big {
 		args = append(args, "-b")
 	}
@@ -59,9 +66,10 @@ func runC19(r *vf.Run) {
 		wf{"r1000", func() *gen.CSVFile { return gen.CSVWithValues(1000, []int{1000}) }},
 		wf{"r1001", func() *gen.CSVFile { return gen.CSVWithValues(1001, []int{1001, 2, 500}) }},
 		wf{"r2001", func() *gen.CSVFile { return gen.CSVWithValues(2001, []int{1500, 7}) }},
+		wf{"r20001-verbose", func() *gen.CSVFile { return gen.CSVWithValues(20001, []int{9000, 7, 2}) }},
 	)
 	lrng := r.RNG("list")
-	for i := 0; i < r.Pick(50, 300); i++ {
+	for i := 0; i < r.Pick(50, 2000); i++ {
 		id := fmt.Sprintf("rnd%03d", i)
 		n := []int{lrng.Intn(30), lrng.Intn(1200), lrng.Intn(3001)}[lrng.Intn(3)]
 		hostile := i%4 != 3
@@ -97,7 +105,7 @@ func runC19(r *vf.Run) {
 			}
 			cid := id + "/" + mode
 			out := filepath.Join(sub, mode+".updog")
-			res := runCreate(r, big, out, in)
+			res := runCreateOpts(r, big, strings.HasSuffix(c.id, "-verbose") || len(c.id)%5 == 0, out, in)
 			r.Eval(1)
 			r.Cover("modes", mode)
 			r.Cover("csv_styles", csvStyle(csv.Text))
@@ -158,7 +166,7 @@ func runC19(r *vf.Run) {
 			}
 			target := outs[[]string{"normal", "big"}[len(c.id)%2]]
 			before := mon.StatFile(target)
-			res := runCreate(r, big, target, in)
+			res := runCreateOpts(r, big, len(c.id)%2 == 0, target, in)
 			r.Eval(1)
 			r.Cover("output_states", "present-valid-index")
 			r.Distinct(id + "/" + mode + "|present")
@@ -251,8 +259,12 @@ func runC19(r *vf.Run) {
 						_ = os.WriteFile(out, []byte("junk, not an index\n"), 0o644)
 					}
 					before := mon.StatFile(out)
-					res := runCreate(r, big, out, in)
+					verbose := len(cid)%3 == 0 // every third case with -v: flags must not change the outcome
+					res := runCreateOpts(r, big, verbose, out, in)
 					r.Eval(1)
+					if verbose {
+						r.Count("runs_with_verbose_flag", 1)
+					}
 					r.Cover("malformed_kinds", m.kind)
 					r.Cover("output_states", pre)
 					r.Cover("modes", mode)
@@ -287,6 +299,7 @@ func runC19(r *vf.Run) {
 			}
 		}
 	})
+	c19RetryAfterKill(r, dir)
 	// a nonexistent input
 	r.Guard("bad/no-input", func() {
 		res := runCreate(r, false, filepath.Join(dir, "never.updog"), filepath.Join(dir, "does-not-exist.csv"))
@@ -310,4 +323,85 @@ func csvStyle(text string) string {
 		st += "+crlf"
 	}
 	return st
+}
+
+// c19RetryAfterKill: a `create` that was killed half-way (SIGKILL at a commit boundary, through the verif build's
+// UPDOG_VERIF_KILL_AT), its partial output removed, and then a create with the same -o on ANOTHER CSV: whatever the
+// killed run left behind (temporary files next to the output or in TMPDIR) must not leak into the new index.
+func c19RetryAfterKill(r *vf.Run, dir string) {
+	if !haveBin("updog.verif") {
+		return
+	}
+	first := gen.CSVWithValues(2600, []int{50, 7})
+	second := gen.CSVWithValues(1700, []int{30, 7, 3})
+	for _, big := range []bool{false, true} {
+		for _, killAt := range []int{1, 2, 3} {
+			mode := "normal"
+			if big {
+				mode = "big"
+			}
+			cid := fmt.Sprintf("retry-after-kill/%s/kill%d", mode, killAt)
+			if !r.Want(cid) {
+				continue
+			}
+			r.Guard(cid, func() {
+				sub := filepath.Join(dir, vf.Digest(cid))
+				mustMkdir(sub)
+				defer os.RemoveAll(sub)
+				tmp := filepath.Join(sub, "tmp")
+				mustMkdir(tmp)
+				in1, in2, out := filepath.Join(sub, "first.csv"), filepath.Join(sub, "second.csv"), filepath.Join(sub, "out.updog")
+				_ = os.WriteFile(in1, []byte(first.Text), 0o644)
+				_ = os.WriteFile(in2, []byte(second.Text), 0o644)
+				args := func(in string) []string {
+					a := []string{"create", "-o", out}
+					if big {
+						a = append(a, "-b")
+					}
+					return append(a, in)
+				}
+				k := runChild(r, binPath("updog.verif"), args(in1), childOpts{Timeout: 2 * time.Minute, TmpDir: tmp, Env: []string{fmt.Sprintf("UPDOG_VERIF_KILL_AT=%d", killAt)}})
+				if k.TimedOut {
+					hangVerdict(r, cid, k, nil)
+					return
+				}
+				if !k.Signaled {
+					r.Count("retry_runs_where_the_first_create_was_not_killed", 1)
+				}
+				os.Remove(out) // the user cleans up the partial output and tries again with other data
+				res := runChild(r, binPath("updog.verif"), args(in2), childOpts{Timeout: 2 * time.Minute, TmpDir: tmp})
+				r.Eval(1)
+				r.Count("retries_after_a_killed_create", 1)
+				r.Distinct(cid)
+				w := map[string]any{"mode": mode, "first_run_killed_at_commit_point": killAt, "first_csv_records": len(first.Records), "second_csv_records": len(second.Records)}
+				if res.TimedOut {
+					hangVerdict(r, cid, res, w)
+					return
+				}
+				if res.Code != 0 {
+					w["exit_code"], w["stderr"] = res.Code, head(res.Stderr, 800)
+					r.Violation(cid, "create-failed-after-a-killed-run", w)
+					return
+				}
+				rows := second.Rows()
+				ds := &gen.Dataset{ID: cid, Rows: rows}
+				ds.Index()
+				idx, err := ix.Open(out, ix.OpenOnDemand, nil)
+				if err != nil {
+					w["error"] = err.Error()
+					r.Violation(cid, "output-not-an-index", w)
+					return
+				}
+				d := oracle.CompareSchema(idx.GetSchema(), rows)
+				if d == "" {
+					_, d = runProbes(idx, probeSet(r.RNG("probes/"+cid), ds, 400, 10))
+				}
+				idx.Close()
+				if d != "" {
+					w["difference"] = d
+					r.Violation(cid, "index-differs-from-csv", w)
+				}
+			})
+		}
+	}
 }
